@@ -13,17 +13,28 @@ namespace Tree
 /-- the sequence whose unit list an operation edits -/
 def Op.target : Op → List Nat
   | .append s _ | .prepend s _ | .insert s _ _ | .extend s _ | .iadd s _ | .setItem s _ _
-  | .setSlice s _ _ _ | .delItem s _ | .delSlice s _ _ | .pop s _ | .remove s _ | .clear s | .drop s _
-  | .flatten s | .listCopy s => [s]
+  | .setSlice s _ _ _ | .delItem s _ | .delSlice s _ _ | .setSliceExt s _ _ _ _ | .delSliceExt s _ _ _
+  | .pop s _ | .remove s _ | .clear s | .drop s _ | .flatten s | .listCopy s => [s]
   | _ => []
 
-/-- Side condition under which the invariant is preserved: the edited sequence exists, the inserted units exist,
-are pairwise distinct and are **not listed anywhere at that moment**, and a flattened sequence does not contain
-itself.  The excluded point (a unit adopted while still listed elsewhere) is real: see `C13_counterexample`. -/
+/-- an extended-slice assignment (`k ∉ {0, 1}`) stores as many units as it addresses -/
+def Op.sizeOk (st : TState) : Op → Prop
+  | .setSliceExt s i j k us =>
+    k ≠ 0 → k ≠ 1 → us.length = (slicePositions (st.children s).length i j k).length
+  | _ => True
+
+/-- Side condition under which the invariant is preserved: the edited sequence exists; the inserted units exist, are
+pairwise distinct and each of them is **not listed anywhere at that moment, or is one of the units which this very
+item / slice assignment replaces** (`Op.replaced`: in-place reordering such as `l[:] = reversed(l)`,
+`l[1:3] = [c, x]` with `c` in the range, `l[::2] = …` rotations; for every other operation `Op.replaced = []`);
+an extended-slice assignment has matching sizes; a flattened sequence does not contain itself.
+The excluded points are real: see `C13_counterexample` (a unit adopted while still listed elsewhere, F10) and
+`C13_ext_size_counterexample` (size mismatch of an extended-slice assignment). -/
 def Valid (st : TState) (op : Op) : Prop :=
   (∀ s ∈ op.target, s < st.n) ∧
-  (∀ u ∈ op.inserted, st.parent u = none ∧ u < st.n) ∧
+  (∀ u ∈ op.inserted, (st.parent u = none ∨ u ∈ op.replaced st) ∧ u < st.n) ∧
   op.inserted.Nodup ∧
+  op.sizeOk st ∧
   (∀ s, op = .flatten s → st.parent s ≠ some s)
 
 theorem inv_init : Inv init := by
@@ -31,30 +42,36 @@ theorem inv_init : Inv init := by
 
 /-- every operation of the list/sequence API preserves the tree invariant -/
 theorem inv_step (st : TState) (op : Op) (h : Inv st) (hv : Valid st op) : Inv (step st op).1 := by
-  obtain ⟨ht, hi, hd, hf⟩ := hv
+  obtain ⟨ht, hi, hd, hz, hf⟩ := hv
+  have hnone : op.replaced st = [] → ∀ u ∈ op.inserted, st.parent u = none := by
+    intro he u hu; have := (hi u hu).1; rw [he] at this; simpa using this
   cases op with
   | newUnit k l => exact alloc_inv st k l h
   | construct us l =>
-    exact construct_inv st us l h (fun u hu => (hi u hu).1) hd (fun u hu => (hi u hu).2)
+    exact construct_inv st us l h (hnone rfl) hd (fun u hu => (hi u hu).2)
   | append s u =>
     have := hi u (by simp [Op.inserted])
-    exact append_inv st s u h (ht s (by simp [Op.target])) this.1 this.2
+    exact append_inv st s u h (ht s (by simp [Op.target])) (hnone rfl u (by simp [Op.inserted])) this.2
   | prepend s u =>
     have := hi u (by simp [Op.inserted])
-    exact insert_inv st s 0 u h (ht s (by simp [Op.target])) this.1 this.2
+    exact insert_inv st s 0 u h (ht s (by simp [Op.target])) (hnone rfl u (by simp [Op.inserted])) this.2
   | insert s i u =>
     have := hi u (by simp [Op.inserted])
-    exact insert_inv st s i u h (ht s (by simp [Op.target])) this.1 this.2
+    exact insert_inv st s i u h (ht s (by simp [Op.target])) (hnone rfl u (by simp [Op.inserted])) this.2
   | extend s us =>
-    exact extend_inv st s us h (ht s (by simp [Op.target])) (fun u hu => (hi u hu).1) hd (fun u hu => (hi u hu).2)
+    exact extend_inv st s us h (ht s (by simp [Op.target])) (hnone rfl) hd (fun u hu => (hi u hu).2)
   | iadd s us =>
-    exact extend_inv st s us h (ht s (by simp [Op.target])) (fun u hu => (hi u hu).1) hd (fun u hu => (hi u hu).2)
+    exact extend_inv st s us h (ht s (by simp [Op.target])) (hnone rfl) hd (fun u hu => (hi u hu).2)
   | setItem s i u =>
     have := hi u (by simp [Op.inserted])
     exact setItem_inv st s i u h (ht s (by simp [Op.target])) this.1 this.2
   | setSlice s i j us =>
     exact setSlice_inv st s i j us h (ht s (by simp [Op.target])) (fun u hu => (hi u hu).1) hd
       (fun u hu => (hi u hu).2)
+  | setSliceExt s i j k us =>
+    exact setSliceExt_inv st s i j k us h (ht s (by simp [Op.target])) (fun u hu => (hi u hu).1) hd
+      (fun u hu => (hi u hu).2) hz
+  | delSliceExt s i j k => exact delSliceExt_inv st s i j k h (ht s (by simp [Op.target]))
   | delItem s i => exact delItem_inv st s i h (ht s (by simp [Op.target]))
   | delSlice s i j => exact delSlice_inv st s i j h (ht s (by simp [Op.target]))
   | pop s i => exact pop_inv st s i h (ht s (by simp [Op.target]))
@@ -107,30 +124,49 @@ theorem deepCopy_root_unlisted (st : TState) (u : Nat) (h : Inv st) :
 theorem nav_agrees (st : TState) (h : Inv st) (p u : Nat) (pre post : List Nat)
     (hl : st.children p = pre ++ u :: post) :
     prev st u = (match pre.getLast? with | some v => .unit v | none => .indexError) ∧
-    next st u = (match post.head? with | some v => .unit v | none => .indexError) := by
-  have hmem : u ∈ st.children p := by rw [hl]; simp
-  have hpar := (h.mem_iff p u).1 hmem
+    next st u = (match post.head? with | some v => .unit v | none => .indexError) :=
+  nav_split st h p u pre post hl
+
+/-- navigation by type (`prev_of(t)` / `next_of(t)`) agrees with the list order: the result is the LAST unit of the
+requested kind among the units listed before `u`, resp. the FIRST one among the units listed after `u`
+(`IndexError` when there is none) - in particular never `u` itself, even when `u` is of the requested kind. -/
+theorem navOf_agrees (st : TState) (h : Inv st) (p u q : Nat) (pre post : List Nat)
+    (hl : st.children p = pre ++ u :: post) :
+    prevOf st u q = (match (pre.filter (isKind st q)).getLast? with | some v => .unit v | none => .indexError) ∧
+    nextOf st u q = (match (post.filter (isKind st q)).head? with | some v => .unit v | none => .indexError) ∧
+    prevOf st u q ≠ .unit u ∧ nextOf st u q ≠ .unit u := by
+  have hlen := children_length_le st h p
+  rw [hl] at hlen
+  simp only [List.length_append, List.length_cons] at hlen
+  have e1 := prevOfAux_spec st h q p (st.n + 1) pre u post hl (by omega)
+  have e2 := nextOfAux_spec st h q p (st.n + 1) post u pre hl (by omega)
   have hnd := h.nodup p
   rw [hl] at hnd
-  have hnotin : u ∉ pre := by
-    intro hm
-    have := List.nodup_append.1 hnd
-    exact this.2.2 u hm u (by simp) rfl
-  have hidx : (pre ++ u :: post).idxOf u = pre.length := by
-    rw [List.idxOf_append]; simp [hnotin]
-  constructor
-  · simp only [prev, hpar, hl, hidx]
-    have : u ∈ pre ++ u :: post := by simp
-    simp only [this, if_true]
-    rcases List.eq_nil_or_concat pre with rfl | ⟨pre', v, rfl⟩
-    · simp
-    · simp [List.getLast?_eq_getElem?]
-  · simp only [next, hpar, hl, hidx]
-    have : u ∈ pre ++ u :: post := by simp
-    simp only [this, if_true]
-    cases post with
-    | nil => simp
-    | cons v post' => simp
+  have hnd' := List.nodup_append.1 hnd
+  have hpre : u ∉ pre := fun hm => hnd'.2.2 u hm u (by simp) rfl
+  have hpost : u ∉ post := (List.nodup_cons.1 hnd'.2.1).1
+  refine ⟨e1, e2, ?_, ?_⟩
+  · simp only [prevOf, e1]
+    cases hg : (pre.filter (isKind st q)).getLast? with
+    | none => simp
+    | some v =>
+      have : v ∈ pre.filter (isKind st q) := List.mem_of_getLast? hg
+      have : v ∈ pre := (List.mem_filter.1 this).1
+      simp only [ne_eq, Nav.unit.injEq]
+      intro e; subst e; exact hpre this
+  · simp only [nextOf, e2]
+    cases hg : (post.filter (isKind st q)).head? with
+    | none => simp
+    | some v =>
+      have : v ∈ post.filter (isKind st q) := List.mem_of_head? hg
+      have : v ∈ post := (List.mem_filter.1 this).1
+      simp only [ne_eq, Nav.unit.injEq]
+      intro e; subst e; exact hpost this
+
+/-- navigation by type from a unit without parent raises ValueError, like `prev` / `next` -/
+theorem navOf_orphan (st : TState) (u q : Nat) (hp : st.parent u = none) :
+    prevOf st u q = .valueError ∧ nextOf st u q = .valueError := by
+  simp [prevOf, nextOf, prevOfAux, nextOfAux, prev, next, hp]
 
 /-- a unit without parent has no previous/next (ValueError), as documented -/
 theorem nav_orphan (st : TState) (u : Nat) (hp : st.parent u = none) :
@@ -200,18 +236,43 @@ theorem C13_counterexample : ¬ C13_full := by
   have := (h [.newUnit 0 0, .construct [0] 0, .construct [0] 1]).mem_iff 1 0
   simp [run, step, construct, alloc, setParents, setChildren, init] at this
 
+/-- The size condition `Op.sizeOk` cannot be dropped: `l[::2] = [x]` on a list of three units raises ValueError
+(sizes 1 ≠ 2) AFTER the two addressed units have been orphaned - they stay listed and name no parent.
+Replayed on the implementation: see notes/C13.md (finding "ext-slice-size-mismatch"). -/
+theorem C13_ext_size_counterexample :
+    ¬ Inv (run init [.newUnit 0 0, .newUnit 0 1, .newUnit 0 2, .newUnit 0 3, .construct [0, 1, 2] 0,
+      .setSliceExt 4 none none 2 [3]]) := by
+  intro h
+  have := (h.mem_iff 4 0).1
+  simp [run, step, construct, alloc, setParents, setChildren, setSliceExt, slicePositions, extBounds, extPos,
+    itemsAt, init] at this
+
 /-! ### Non-vacuity: a concrete non-trivial history satisfies the hypotheses -/
 
 def exampleOps : List Op :=
   [.newUnit 1 0, .newUnit 2 1, .newUnit 0 2, .construct [0, 1] 0, .newUnit 1 3,
-   .setItem 3 0 4, .append 3 2, .pop 3 (-1), .insert 3 1 2, .flatten 3]
+   .setItem 3 0 4, .append 3 2,
+   .setSlice 3 none none [2, 1, 4],          -- l[:] = reversed(l): every inserted unit is a replaced one
+   .setSliceExt 3 none none 2 [4, 2],        -- l[::2] = rotation of l[::2]
+   .setItem 3 1 1,                           -- l[1] = l[1]
+   .setSlice 3 (some 1) (some 3) [2, 0],     -- l[1:3] = [c, x] with c inside the range, x unlisted
+   .pop 3 (-1), .insert 3 1 0, .delSliceExt 3 none none (-2), .flatten 3]
 
 example : ValidRun init exampleOps := by
-  simp [exampleOps, ValidRun, Valid, step, Op.target, Op.inserted, construct, alloc, setParents, setChildren,
-    setItem, append, pop, insert, normIdx, clampIdx, init]
+  simp [exampleOps, ValidRun, Valid, step, Op.target, Op.inserted, Op.replaced, Op.sizeOk, construct, alloc,
+    setParents, setChildren, setItem, setSlice, setSliceExt, delSliceExt, append, pop, insert, normIdx, clampIdx,
+    sliceBounds, bySlice, slicePositions, extBounds, extPos, itemsAt, replaceAt, dropAt, List.idxOf_cons, init]
 
-example : (run init exampleOps).children 3 = [4, 2, 1] := by
-  simp [exampleOps, run, step, construct, alloc, setParents, setChildren, setItem, append, pop, insert,
-    flatten, flattenAux, normIdx, clampIdx, init]
+example : (run init exampleOps).children 3 = [0] := by
+  simp [exampleOps, run, step, construct, alloc, setParents, setChildren, setItem, setSlice, setSliceExt,
+    delSliceExt, append, pop, insert, flatten, flattenAux, normIdx, clampIdx, sliceBounds, slicePositions,
+    extBounds, extPos, itemsAt, replaceAt, dropAt, List.idxOf_cons, init]
+
+/-- navigation by type on a concrete list: `[p0, t1, u2, p3]` (roll pass, transport, plain, roll pass) -/
+def navExample : TState := run init [.newUnit 1 0, .newUnit 2 1, .newUnit 0 2, .newUnit 1 3, .construct [0, 1, 2, 3] 0]
+
+example : prevOf navExample 3 1 = .unit 0 ∧ nextOf navExample 0 1 = .unit 3 ∧ prevOf navExample 0 0 = .indexError ∧
+    nextOf navExample 1 2 = .indexError ∧ prevOf navExample 2 0 = .unit 1 ∧ prevOf navExample 4 0 = .valueError := by
+  decide
 
 end Tree
